@@ -6,6 +6,8 @@ import JubakoModel.Model.Container
 import JubakoModel.Generated.FuncsOpen
 import JubakoModel.Lemmas.NoCrash
 
+set_option linter.unusedSimpArgs false
+
 namespace Jubako
 
 theorem Outcome.bind_ok'' {α β : Type} (a : α) (g : α → Outcome β) : (Outcome.ok a).bind g = g a := rfl
@@ -284,5 +286,120 @@ theorem gen_directoryOpen (f : Bytes) :
         rfl
     | _ => rfl
   | _ => rfl
+
+/-! ### the pack header -/
+
+theorem takeBytes_at (bs : Bytes) (o n : Nat) (h : o + n ≤ bs.length) :
+    takeBytes (bs.drop o) n = .ok (slice bs o n, bs.drop (o + n)) := by
+  unfold takeBytes
+  have h' : n ≤ (bs.drop o).length := by simp; omega
+  simp [h', slice, List.drop_drop]
+  omega
+
+theorem takeLE_at (bs : Bytes) (o n : Nat) (h : o + n ≤ bs.length) :
+    takeLE (bs.drop o) n = .ok (leNat (slice bs o n), bs.drop (o + n)) := by
+  unfold takeLE
+  have h' : n ≤ (bs.drop o).length := by simp; omega
+  simp [h', slice, List.drop_drop]
+  omega
+
+theorem leNat_slice_one (bs : Bytes) (o : Nat) (h : o < bs.length) : leNat (slice bs o 1) = (bs.getD o 0).toNat := by
+  have : slice bs o 1 = [bs.getD o 0] := by
+    simp only [slice]
+    rw [List.drop_eq_getElem_cons h]
+    simp [List.getD, List.getElem?_eq_getElem h, List.take]
+  simp [this, leNat]
+
+def tupleToHeader (r : PackKind × Bytes × Nat × Nat × Bytes × Nat × Nat × Nat) : PackHeader :=
+  ⟨r.1, r.2.1, r.2.2.1, r.2.2.2.1, r.2.2.2.2.1, r.2.2.2.2.2.1, r.2.2.2.2.2.2.1, r.2.2.2.2.2.2.2⟩
+
+/-- **The pack header is parsed as the source parses it**: `PackHeader::parse` (with `FullPackKind::parse`),
+    translated on every run into a sequential parser, is `PackHeader.decode` of the model on every 60-byte block
+    (the size the reader always hands it): magic `jbk`, then the kind byte (m / d / c / C, anything else is a format
+    error), vendor id, **then the version gate** — a version other than the current one is a version error whatever
+    follows —, uuid, flags, sizes and positions little-endian, the padding skipped. -/
+theorem gen_packHeaderParse (bs : Bytes) (h60 : bs.length = 60) :
+    (Generated.packHeaderParse bs).map' (fun r => tupleToHeader r.1) = PackHeader.decode bs := by
+  have t0 := takeBytes_at bs 0 3 (by omega)
+  have t3 := takeLE_at bs 3 1 (by omega)
+  have t4 := takeBytes_at bs 4 4 (by omega)
+  have t8 := takeLE_at bs 8 1 (by omega)
+  have t9 := takeLE_at bs 9 1 (by omega)
+  have t10 := takeBytes_at bs 10 16 (by omega)
+  have t26 := takeLE_at bs 26 1 (by omega)
+  have t27 := takeBytes_at bs 27 5 (by omega)
+  have t32 := takeLE_at bs 32 8 (by omega)
+  have t40 := takeLE_at bs 40 8 (by omega)
+  have t48 := takeBytes_at bs 48 12 (by omega)
+  simp only [List.drop_zero, Nat.zero_add] at t0
+  simp only [Nat.reduceAdd] at t3 t4 t8 t9 t10 t26 t27 t32 t40 t48
+  have k3 := leNat_slice_one bs 3 (by omega)
+  have k8 := leNat_slice_one bs 8 (by omega)
+  have k9 := leNat_slice_one bs 9 (by omega)
+  have k26 := leNat_slice_one bs 26 (by omega)
+  have hs0 : slice bs 0 3 = bs.take 3 := by simp [slice]
+  unfold Generated.packHeaderParse Generated.fullPackKindParse PackHeader.decode
+  have hlen : ¬ bs.length < 60 := by omega
+  simp only [t0, Outcome.bind_ok'', hs0, hlen, if_false]
+  by_cases hm : bs.take 3 = [106, 98, 107]
+  · simp only [hm, ne_eq, not_true_eq_false, if_false, t3, Outcome.bind_ok'', k3]
+    have tailEq : ∀ k : PackKind,
+        Outcome.map' (fun r => tupleToHeader r.fst)
+          ((Outcome.ok (k, List.drop 4 bs)).bind fun x =>
+            (takeBytes x.snd 4).bind fun x_1 =>
+              (takeLE x_1.snd 1).bind fun x_2 =>
+                (takeLE x_2.snd 1).bind fun x_3 =>
+                  if ¬(x_2.fst, x_3.fst) = (0, 2) then Outcome.err ErrKind.version
+                  else
+                    (takeBytes x_3.snd 16).bind fun x_4 =>
+                      (takeLE x_4.snd 1).bind fun x_5 =>
+                        (takeBytes x_5.snd 5).bind fun x_6 =>
+                          (takeLE x_6.snd 8).bind fun x_7 =>
+                            (takeLE x_7.snd 8).bind fun x_8 =>
+                              (takeBytes x_8.snd 12).bind fun x_9 =>
+                                Outcome.ok
+                                  ((x.fst, x_1.fst, x_2.fst, x_3.fst, x_4.fst, x_5.fst, x_7.fst, x_8.fst), x_9.snd)) =
+        (if ¬((List.getD bs 8 0).toNat, (List.getD bs 9 0).toNat) = (Consts.versionGateMajor, Consts.versionGateMinor) then
+          Outcome.err ErrKind.version
+        else
+          Outcome.ok
+            { kind := k, vendor := slice bs 4 4, major := (List.getD bs 8 0).toNat, minor := (List.getD bs 9 0).toNat,
+              uuid := slice bs 10 16, flags := (List.getD bs 26 0).toNat, packSize := leNat (slice bs 32 8),
+              checkInfoPos := leNat (slice bs 40 8) }) := by
+      intro k
+      simp only [Outcome.bind_ok'', t4, t8, t9, k8, k9]
+      by_cases hv : ((List.getD bs 8 0).toNat, (List.getD bs 9 0).toNat) = (0, 2)
+      · have hv' : ((List.getD bs 8 0).toNat, (List.getD bs 9 0).toNat) = (Consts.versionGateMajor, Consts.versionGateMinor) := hv
+        simp only [hv, hv', not_true_eq_false, if_false, t10, t26, t27, t32, t40, t48, Outcome.bind_ok'', k26]
+        rfl
+      · have hv' : ¬ ((List.getD bs 8 0).toNat, (List.getD bs 9 0).toNat) = (Consts.versionGateMajor, Consts.versionGateMinor) := hv
+        simp only [hv, hv', not_false_eq_true, if_true]
+        rfl
+    by_cases h1 : List.getD bs 3 0 = 109
+    · rw [h1]
+      simp only [show (109 : UInt8).toNat = 109 from rfl, PackKind.ofByte, if_true]
+      exact tailEq _
+    · by_cases h2 : List.getD bs 3 0 = 100
+      · rw [h2]
+        simp only [show (100 : UInt8).toNat = 100 from rfl, PackKind.ofByte, show ((100 : UInt8) = 109) = False from by decide, if_false, if_true]
+        exact tailEq _
+      · by_cases h3 : List.getD bs 3 0 = 99
+        · rw [h3]
+          simp only [show (99 : UInt8).toNat = 99 from rfl, PackKind.ofByte, show ((99 : UInt8) = 109) = False from by decide,
+            show ((99 : UInt8) = 100) = False from by decide, if_false, if_true]
+          exact tailEq _
+        · by_cases h4 : List.getD bs 3 0 = 67
+          · rw [h4]
+            simp only [show (67 : UInt8).toNat = 67 from rfl, PackKind.ofByte, show ((67 : UInt8) = 109) = False from by decide,
+              show ((67 : UInt8) = 100) = False from by decide, show ((67 : UInt8) = 99) = False from by decide, if_false, if_true]
+            exact tailEq _
+          · have n1 : (List.getD bs 3 0).toNat ≠ 109 := fun h => h1 (UInt8.toNat_inj.mp h)
+            have n2 : (List.getD bs 3 0).toNat ≠ 100 := fun h => h2 (UInt8.toNat_inj.mp h)
+            have n3 : (List.getD bs 3 0).toNat ≠ 99 := fun h => h3 (UInt8.toNat_inj.mp h)
+            have n4 : (List.getD bs 3 0).toNat ≠ 67 := fun h => h4 (UInt8.toNat_inj.mp h)
+            simp only [PackKind.ofByte, h1, h2, h3, h4, if_false]
+            rfl
+  · simp [hm]
+    rfl
 
 end Jubako
